@@ -16,6 +16,11 @@ let rec app l m =
   | [] -> m
   | a :: l1 -> a :: (app l1 m)
 
+type comparison =
+| Eq
+| Lt
+| Gt
+
 module Nat =
  struct
   (** val add : nat -> nat -> nat **)
@@ -92,6 +97,14 @@ type z =
 
 module Pos =
  struct
+  type mask =
+  | IsNul
+  | IsPos of positive
+  | IsNeg
+ end
+
+module Coq_Pos =
+ struct
   (** val succ : positive -> positive **)
 
   let rec succ = function
@@ -145,6 +158,103 @@ module Pos =
   | XO p -> XI (pred_double p)
   | XH -> XH
 
+  type mask = Pos.mask =
+  | IsNul
+  | IsPos of positive
+  | IsNeg
+
+  (** val succ_double_mask : mask -> mask **)
+
+  let succ_double_mask = function
+  | IsNul -> IsPos XH
+  | IsPos p -> IsPos (XI p)
+  | IsNeg -> IsNeg
+
+  (** val double_mask : mask -> mask **)
+
+  let double_mask = function
+  | IsPos p -> IsPos (XO p)
+  | x0 -> x0
+
+  (** val double_pred_mask : positive -> mask **)
+
+  let double_pred_mask = function
+  | XI p -> IsPos (XO (XO p))
+  | XO p -> IsPos (XO (pred_double p))
+  | XH -> IsNul
+
+  (** val sub_mask : positive -> positive -> mask **)
+
+  let rec sub_mask x y =
+    match x with
+    | XI p ->
+      (match y with
+       | XI q -> double_mask (sub_mask p q)
+       | XO q -> succ_double_mask (sub_mask p q)
+       | XH -> IsPos (XO p))
+    | XO p ->
+      (match y with
+       | XI q -> succ_double_mask (sub_mask_carry p q)
+       | XO q -> double_mask (sub_mask p q)
+       | XH -> IsPos (pred_double p))
+    | XH -> (match y with
+             | XH -> IsNul
+             | _ -> IsNeg)
+
+  (** val sub_mask_carry : positive -> positive -> mask **)
+
+  and sub_mask_carry x y =
+    match x with
+    | XI p ->
+      (match y with
+       | XI q -> succ_double_mask (sub_mask_carry p q)
+       | XO q -> double_mask (sub_mask p q)
+       | XH -> IsPos (pred_double p))
+    | XO p ->
+      (match y with
+       | XI q -> double_mask (sub_mask_carry p q)
+       | XO q -> succ_double_mask (sub_mask_carry p q)
+       | XH -> double_pred_mask p)
+    | XH -> IsNeg
+
+  (** val mul : positive -> positive -> positive **)
+
+  let rec mul x y =
+    match x with
+    | XI p -> add y (XO (mul p y))
+    | XO p -> XO (mul p y)
+    | XH -> y
+
+  (** val iter : ('a1 -> 'a1) -> 'a1 -> positive -> 'a1 **)
+
+  let rec iter f x = function
+  | XI n' -> f (iter f (iter f x n') n')
+  | XO n' -> iter f (iter f x n') n'
+  | XH -> f x
+
+  (** val compare_cont : comparison -> positive -> positive -> comparison **)
+
+  let rec compare_cont r x y =
+    match x with
+    | XI p ->
+      (match y with
+       | XI q -> compare_cont r p q
+       | XO q -> compare_cont Gt p q
+       | XH -> Gt)
+    | XO p ->
+      (match y with
+       | XI q -> compare_cont Lt p q
+       | XO q -> compare_cont r p q
+       | XH -> Gt)
+    | XH -> (match y with
+             | XH -> r
+             | _ -> Lt)
+
+  (** val compare : positive -> positive -> comparison **)
+
+  let compare =
+    compare_cont Eq
+
   (** val eqb : positive -> positive -> bool **)
 
   let rec eqb p q =
@@ -158,6 +268,36 @@ module Pos =
     | XH -> (match q with
              | XH -> true
              | _ -> false)
+
+  (** val coq_Nsucc_double : n -> n **)
+
+  let coq_Nsucc_double = function
+  | N0 -> Npos XH
+  | Npos p -> Npos (XI p)
+
+  (** val coq_Ndouble : n -> n **)
+
+  let coq_Ndouble = function
+  | N0 -> N0
+  | Npos p -> Npos (XO p)
+
+  (** val coq_land : positive -> positive -> n **)
+
+  let rec coq_land p q =
+    match p with
+    | XI p0 ->
+      (match q with
+       | XI q0 -> coq_Nsucc_double (coq_land p0 q0)
+       | XO q0 -> coq_Ndouble (coq_land p0 q0)
+       | XH -> Npos XH)
+    | XO p0 ->
+      (match q with
+       | XI q0 -> coq_Ndouble (coq_land p0 q0)
+       | XO q0 -> coq_Ndouble (coq_land p0 q0)
+       | XH -> N0)
+    | XH -> (match q with
+             | XO _ -> N0
+             | _ -> Npos XH)
  end
 
 module N =
@@ -169,7 +309,40 @@ module N =
     | N0 -> m
     | Npos p -> (match m with
                  | N0 -> n0
-                 | Npos q -> Npos (Pos.add p q))
+                 | Npos q -> Npos (Coq_Pos.add p q))
+
+  (** val sub : n -> n -> n **)
+
+  let sub n0 m =
+    match n0 with
+    | N0 -> N0
+    | Npos n' ->
+      (match m with
+       | N0 -> n0
+       | Npos m' ->
+         (match Coq_Pos.sub_mask n' m' with
+          | Coq_Pos.IsPos p -> Npos p
+          | _ -> N0))
+
+  (** val mul : n -> n -> n **)
+
+  let mul n0 m =
+    match n0 with
+    | N0 -> N0
+    | Npos p -> (match m with
+                 | N0 -> N0
+                 | Npos q -> Npos (Coq_Pos.mul p q))
+
+  (** val compare : n -> n -> comparison **)
+
+  let compare n0 m =
+    match n0 with
+    | N0 -> (match m with
+             | N0 -> Eq
+             | Npos _ -> Lt)
+    | Npos n' -> (match m with
+                  | N0 -> Gt
+                  | Npos m' -> Coq_Pos.compare n' m')
 
   (** val eqb : n -> n -> bool **)
 
@@ -180,7 +353,45 @@ module N =
              | Npos _ -> false)
     | Npos p -> (match m with
                  | N0 -> false
-                 | Npos q -> Pos.eqb p q)
+                 | Npos q -> Coq_Pos.eqb p q)
+
+  (** val leb : n -> n -> bool **)
+
+  let leb x y =
+    match compare x y with
+    | Gt -> false
+    | _ -> true
+
+  (** val ltb : n -> n -> bool **)
+
+  let ltb x y =
+    match compare x y with
+    | Lt -> true
+    | _ -> false
+
+  (** val div2 : n -> n **)
+
+  let div2 = function
+  | N0 -> N0
+  | Npos p0 -> (match p0 with
+                | XI p -> Npos p
+                | XO p -> Npos p
+                | XH -> N0)
+
+  (** val coq_land : n -> n -> n **)
+
+  let coq_land n0 m =
+    match n0 with
+    | N0 -> N0
+    | Npos p -> (match m with
+                 | N0 -> N0
+                 | Npos q -> Coq_Pos.coq_land p q)
+
+  (** val shiftr : n -> n -> n **)
+
+  let shiftr a = function
+  | N0 -> a
+  | Npos p -> Coq_Pos.iter div2 a p
  end
 
 module Z =
@@ -197,13 +408,13 @@ module Z =
   let succ_double = function
   | Z0 -> Zpos XH
   | Zpos p -> Zpos (XI p)
-  | Zneg p -> Zneg (Pos.pred_double p)
+  | Zneg p -> Zneg (Coq_Pos.pred_double p)
 
   (** val pred_double : z -> z **)
 
   let pred_double = function
   | Z0 -> Zneg XH
-  | Zpos p -> Zpos (Pos.pred_double p)
+  | Zpos p -> Zpos (Coq_Pos.pred_double p)
   | Zneg p -> Zneg (XI p)
 
   (** val pos_sub : positive -> positive -> z **)
@@ -219,11 +430,11 @@ module Z =
       (match y with
        | XI q -> pred_double (pos_sub p q)
        | XO q -> double (pos_sub p q)
-       | XH -> Zpos (Pos.pred_double p))
+       | XH -> Zpos (Coq_Pos.pred_double p))
     | XH ->
       (match y with
        | XI q -> Zneg (XO q)
-       | XO q -> Zneg (Pos.pred_double q)
+       | XO q -> Zneg (Coq_Pos.pred_double q)
        | XH -> Z0)
 
   (** val add : z -> z -> z **)
@@ -234,13 +445,13 @@ module Z =
     | Zpos x' ->
       (match y with
        | Z0 -> x
-       | Zpos y' -> Zpos (Pos.add x' y')
+       | Zpos y' -> Zpos (Coq_Pos.add x' y')
        | Zneg y' -> pos_sub x' y')
     | Zneg x' ->
       (match y with
        | Z0 -> x
        | Zpos y' -> pos_sub y' x'
-       | Zneg y' -> Zneg (Pos.add x' y'))
+       | Zneg y' -> Zneg (Coq_Pos.add x' y'))
  end
 
 type byte = n
@@ -458,3 +669,399 @@ let render abs l =
 let canon_spec s = match s with
 | [] -> []
 | _ :: _ -> let (abs, comps) = parse_path s in render abs (nf comps)
+
+(** val in_range : byte -> byte -> byte -> bool **)
+
+let in_range lo hi b =
+  (&&) (N.leb lo b) (N.leb b hi)
+
+(** val shell_safe : byte -> bool **)
+
+let shell_safe b =
+  if in_range (Npos (XI (XO (XO (XO (XO (XO XH))))))) (Npos (XO (XI (XO (XI
+       (XI (XO XH))))))) b
+  then true
+  else if in_range (Npos (XI (XO (XO (XO (XO (XI XH))))))) (Npos (XO (XI (XO
+            (XI (XI (XI XH))))))) b
+       then true
+       else if in_range (Npos (XO (XO (XO (XO (XI XH)))))) (Npos (XI (XO (XO
+                 (XI (XI XH)))))) b
+            then true
+            else if N.eqb b (Npos (XI (XI (XI (XI (XI (XO XH)))))))
+                 then true
+                 else if N.eqb b (Npos (XI (XI (XO (XI (XO XH))))))
+                      then true
+                      else if N.eqb b (Npos (XI (XO (XI (XI (XO XH))))))
+                           then true
+                           else if N.eqb b (Npos (XO (XI (XI (XI (XO XH))))))
+                                then true
+                                else N.eqb b (Npos (XI (XI (XI (XI (XO
+                                       XH))))))
+
+(** val needs_escaping : bytes -> bool **)
+
+let rec needs_escaping = function
+| [] -> false
+| b :: r -> if shell_safe b then needs_escaping r else true
+
+(** val esc_body : bytes -> bytes **)
+
+let rec esc_body = function
+| [] -> []
+| b :: r ->
+  if N.eqb b (Npos (XI (XI (XI (XO (XO XH))))))
+  then (Npos (XI (XI (XI (XO (XO XH)))))) :: ((Npos (XO (XO (XI (XI (XI (XO
+         XH))))))) :: ((Npos (XI (XI (XI (XO (XO XH)))))) :: ((Npos (XI (XI
+         (XI (XO (XO XH)))))) :: (esc_body r))))
+  else b :: (esc_body r)
+
+(** val shell_escape : bytes -> bytes **)
+
+let shell_escape s =
+  if needs_escaping s
+  then (Npos (XI (XI (XI (XO (XO
+         XH)))))) :: (app (esc_body s) ((Npos (XI (XI (XI (XO (XO
+                       XH)))))) :: []))
+  else s
+
+(** val make_path_list_from : byte -> bytes -> bytes list -> bytes **)
+
+let rec make_path_list_from sep result = function
+| [] -> result
+| p :: rest ->
+  let result1 =
+    match result with
+    | [] -> result
+    | _ :: _ -> app result (sep :: [])
+  in
+  make_path_list_from sep (app result1 (shell_escape p)) rest
+
+(** val make_path_list : byte -> bytes list -> bytes **)
+
+let make_path_list sep names =
+  make_path_list_from sep [] names
+
+type sh_mode =
+| ShUnq
+| ShInQ
+| ShBsl
+
+(** val sh_blank : byte -> bool **)
+
+let sh_blank b =
+  (||)
+    ((||) (N.eqb b (Npos (XO (XO (XO (XO (XO XH)))))))
+      (N.eqb b (Npos (XI (XO (XO XH)))))) (N.eqb b (Npos (XO (XI (XO XH)))))
+
+(** val sh_cur_bytes : bytes option -> bytes **)
+
+let sh_cur_bytes = function
+| Some w -> w
+| None -> []
+
+(** val sh_push : bytes option -> byte -> bytes option **)
+
+let sh_push cur b =
+  Some (b :: (sh_cur_bytes cur))
+
+(** val sh_start : bytes option -> bytes option **)
+
+let sh_start cur =
+  Some (sh_cur_bytes cur)
+
+(** val sh_go : sh_mode -> bytes option -> bytes -> bytes list option **)
+
+let rec sh_go m cur = function
+| [] ->
+  (match m with
+   | ShUnq -> Some (match cur with
+                    | Some w -> (rev w) :: []
+                    | None -> [])
+   | _ -> None)
+| b :: r ->
+  if N.eqb b N0
+  then None
+  else (match m with
+        | ShUnq ->
+          if N.eqb b (Npos (XI (XI (XI (XO (XO XH))))))
+          then sh_go ShInQ (sh_start cur) r
+          else if N.eqb b (Npos (XO (XO (XI (XI (XI (XO XH)))))))
+               then sh_go ShBsl (sh_start cur) r
+               else if sh_blank b
+                    then (match cur with
+                          | Some w ->
+                            (match sh_go ShUnq None r with
+                             | Some ws -> Some ((rev w) :: ws)
+                             | None -> None)
+                          | None -> sh_go ShUnq None r)
+                    else if shell_safe b
+                         then sh_go ShUnq (sh_push cur b) r
+                         else None
+        | ShInQ ->
+          if N.eqb b (Npos (XI (XI (XI (XO (XO XH))))))
+          then sh_go ShUnq cur r
+          else sh_go ShInQ (sh_push cur b) r
+        | ShBsl ->
+          if N.eqb b (Npos (XO (XI (XO XH))))
+          then None
+          else sh_go ShUnq (sh_push cur b) r)
+
+(** val sh_words : bytes -> bytes list option **)
+
+let sh_words s =
+  sh_go ShUnq None s
+
+(** val jbetween : byte -> byte -> byte -> bool **)
+
+let jbetween lo hi b =
+  (&&) (N.leb lo b) (N.leb b hi)
+
+(** val hex_digit : n -> byte **)
+
+let hex_digit n0 =
+  if N.ltb n0 (Npos (XO (XI (XO XH))))
+  then N.add (Npos (XO (XO (XO (XO (XI XH)))))) n0
+  else N.add (Npos (XI (XI (XI (XO (XI (XO XH))))))) n0
+
+(** val json_encode_byte : byte -> bytes **)
+
+let json_encode_byte c =
+  if N.eqb c (Npos (XO (XO (XO XH))))
+  then (Npos (XO (XO (XI (XI (XI (XO XH))))))) :: ((Npos (XO (XI (XO (XO (XO
+         (XI XH))))))) :: [])
+  else if N.eqb c (Npos (XO (XO (XI XH))))
+       then (Npos (XO (XO (XI (XI (XI (XO XH))))))) :: ((Npos (XO (XI (XI (XO
+              (XO (XI XH))))))) :: [])
+       else if N.eqb c (Npos (XO (XI (XO XH))))
+            then (Npos (XO (XO (XI (XI (XI (XO XH))))))) :: ((Npos (XO (XI
+                   (XI (XI (XO (XI XH))))))) :: [])
+            else if N.eqb c (Npos (XI (XO (XI XH))))
+                 then (Npos (XO (XO (XI (XI (XI (XO XH))))))) :: ((Npos (XO
+                        (XI (XO (XO (XI (XI XH))))))) :: [])
+                 else if N.eqb c (Npos (XI (XO (XO XH))))
+                      then (Npos (XO (XO (XI (XI (XI (XO XH))))))) :: ((Npos
+                             (XO (XO (XI (XO (XI (XI XH))))))) :: [])
+                      else if N.ltb c (Npos (XO (XO (XO (XO (XO XH))))))
+                           then (Npos (XO (XO (XI (XI (XI (XO
+                                  XH))))))) :: ((Npos (XI (XO (XI (XO (XI (XI
+                                  XH))))))) :: ((Npos (XO (XO (XO (XO (XI
+                                  XH)))))) :: ((Npos (XO (XO (XO (XO (XI
+                                  XH)))))) :: ((hex_digit
+                                                 (N.shiftr c (Npos (XO (XO
+                                                   XH))))) :: ((hex_digit
+                                                                 (N.coq_land
+                                                                   c (Npos
+                                                                   (XI (XI
+                                                                   (XI XH)))))) :: [])))))
+                           else if N.eqb c (Npos (XO (XO (XI (XI (XI (XO
+                                     XH)))))))
+                                then (Npos (XO (XO (XI (XI (XI (XO
+                                       XH))))))) :: ((Npos (XO (XO (XI (XI
+                                       (XI (XO XH))))))) :: [])
+                                else if N.eqb c (Npos (XO (XI (XO (XO (XO
+                                          XH))))))
+                                     then (Npos (XO (XO (XI (XI (XI (XO
+                                            XH))))))) :: ((Npos (XO (XI (XO
+                                            (XO (XO XH)))))) :: [])
+                                     else c :: []
+
+(** val json_encode : bytes -> bytes **)
+
+let rec json_encode = function
+| [] -> []
+| c :: r -> app (json_encode_byte c) (json_encode r)
+
+(** val hex_val : byte -> n option **)
+
+let hex_val b =
+  if jbetween (Npos (XO (XO (XO (XO (XI XH)))))) (Npos (XI (XO (XO (XI (XI
+       XH)))))) b
+  then Some (N.sub b (Npos (XO (XO (XO (XO (XI XH)))))))
+  else if jbetween (Npos (XI (XO (XO (XO (XO (XI XH))))))) (Npos (XO (XI (XI
+            (XO (XO (XI XH))))))) b
+       then Some (N.sub b (Npos (XI (XI (XI (XO (XI (XO XH))))))))
+       else if jbetween (Npos (XI (XO (XO (XO (XO (XO XH))))))) (Npos (XO (XI
+                 (XI (XO (XO (XO XH))))))) b
+            then Some (N.sub b (Npos (XI (XI (XI (XO (XI XH)))))))
+            else None
+
+(** val hex4 : byte -> byte -> byte -> byte -> n option **)
+
+let hex4 h1 h2 h3 h4 =
+  match hex_val h1 with
+  | Some a ->
+    (match hex_val h2 with
+     | Some b ->
+       (match hex_val h3 with
+        | Some c ->
+          (match hex_val h4 with
+           | Some d ->
+             Some
+               (N.add
+                 (N.mul
+                   (N.add
+                     (N.mul (N.add (N.mul a (Npos (XO (XO (XO (XO XH)))))) b)
+                       (Npos (XO (XO (XO (XO XH)))))) c) (Npos (XO (XO (XO
+                   (XO XH)))))) d)
+           | None -> None)
+        | None -> None)
+     | None -> None)
+  | None -> None
+
+(** val json_simple_escape : byte -> byte option **)
+
+let json_simple_escape e =
+  if N.eqb e (Npos (XO (XI (XO (XO (XO XH))))))
+  then Some (Npos (XO (XI (XO (XO (XO XH))))))
+  else if N.eqb e (Npos (XO (XO (XI (XI (XI (XO XH)))))))
+       then Some (Npos (XO (XO (XI (XI (XI (XO XH)))))))
+       else if N.eqb e (Npos (XI (XI (XI (XI (XO XH))))))
+            then Some (Npos (XI (XI (XI (XI (XO XH))))))
+            else if N.eqb e (Npos (XO (XI (XO (XO (XO (XI XH)))))))
+                 then Some (Npos (XO (XO (XO XH))))
+                 else if N.eqb e (Npos (XO (XI (XI (XO (XO (XI XH)))))))
+                      then Some (Npos (XO (XO (XI XH))))
+                      else if N.eqb e (Npos (XO (XI (XI (XI (XO (XI XH)))))))
+                           then Some (Npos (XO (XI (XO XH))))
+                           else if N.eqb e (Npos (XO (XI (XO (XO (XI (XI
+                                     XH)))))))
+                                then Some (Npos (XI (XO (XI XH))))
+                                else if N.eqb e (Npos (XO (XO (XI (XO (XI (XI
+                                          XH)))))))
+                                     then Some (Npos (XI (XO (XO XH))))
+                                     else None
+
+(** val cons_opt : byte -> bytes option -> bytes option **)
+
+let cons_opt b = function
+| Some l -> Some (b :: l)
+| None -> None
+
+(** val json_decode : bytes -> bytes option **)
+
+let rec json_decode = function
+| [] -> Some []
+| b :: r ->
+  if N.eqb b (Npos (XO (XO (XI (XI (XI (XO XH)))))))
+  then (match r with
+        | [] -> None
+        | e :: r1 ->
+          if N.eqb e (Npos (XI (XO (XI (XO (XI (XI XH)))))))
+          then (match r1 with
+                | [] -> None
+                | h1 :: l ->
+                  (match l with
+                   | [] -> None
+                   | h2 :: l0 ->
+                     (match l0 with
+                      | [] -> None
+                      | h3 :: l1 ->
+                        (match l1 with
+                         | [] -> None
+                         | h4 :: r2 ->
+                           (match hex4 h1 h2 h3 h4 with
+                            | Some v ->
+                              if N.ltb v (Npos (XO (XO (XO (XO (XO (XO (XO
+                                   (XO XH)))))))))
+                              then cons_opt v (json_decode r2)
+                              else None
+                            | None -> None)))))
+          else (match json_simple_escape e with
+                | Some c -> cons_opt c (json_decode r1)
+                | None -> None))
+  else if N.eqb b (Npos (XO (XI (XO (XO (XO XH))))))
+       then None
+       else if N.ltb b (Npos (XO (XO (XO (XO (XO XH))))))
+            then None
+            else cons_opt b (json_decode r)
+
+type u8_state =
+| U0
+| U1
+| U2
+| U2_E0
+| U2_ED
+| U3
+| U3_F0
+| U3_F4
+
+(** val u8_step : u8_state -> byte -> u8_state option **)
+
+let u8_step st b =
+  match st with
+  | U0 ->
+    if N.ltb b (Npos (XO (XO (XO (XO (XO (XO (XO XH))))))))
+    then Some U0
+    else if jbetween (Npos (XO (XI (XO (XO (XO (XO (XI XH)))))))) (Npos (XI
+              (XI (XI (XI (XI (XO (XI XH)))))))) b
+         then Some U1
+         else if N.eqb b (Npos (XO (XO (XO (XO (XO (XI (XI XH))))))))
+              then Some U2_E0
+              else if N.eqb b (Npos (XI (XO (XI (XI (XO (XI (XI XH))))))))
+                   then Some U2_ED
+                   else if jbetween (Npos (XI (XO (XO (XO (XO (XI (XI
+                             XH)))))))) (Npos (XI (XI (XI (XI (XO (XI (XI
+                             XH)))))))) b
+                        then Some U2
+                        else if N.eqb b (Npos (XO (XO (XO (XO (XI (XI (XI
+                                  XH))))))))
+                             then Some U3_F0
+                             else if jbetween (Npos (XI (XO (XO (XO (XI (XI
+                                       (XI XH)))))))) (Npos (XI (XI (XO (XO
+                                       (XI (XI (XI XH)))))))) b
+                                  then Some U3
+                                  else if N.eqb b (Npos (XO (XO (XI (XO (XI
+                                            (XI (XI XH))))))))
+                                       then Some U3_F4
+                                       else None
+  | U1 ->
+    if jbetween (Npos (XO (XO (XO (XO (XO (XO (XO XH)))))))) (Npos (XI (XI
+         (XI (XI (XI (XI (XO XH)))))))) b
+    then Some U0
+    else None
+  | U2 ->
+    if jbetween (Npos (XO (XO (XO (XO (XO (XO (XO XH)))))))) (Npos (XI (XI
+         (XI (XI (XI (XI (XO XH)))))))) b
+    then Some U1
+    else None
+  | U2_E0 ->
+    if jbetween (Npos (XO (XO (XO (XO (XO (XI (XO XH)))))))) (Npos (XI (XI
+         (XI (XI (XI (XI (XO XH)))))))) b
+    then Some U1
+    else None
+  | U2_ED ->
+    if jbetween (Npos (XO (XO (XO (XO (XO (XO (XO XH)))))))) (Npos (XI (XI
+         (XI (XI (XI (XO (XO XH)))))))) b
+    then Some U1
+    else None
+  | U3 ->
+    if jbetween (Npos (XO (XO (XO (XO (XO (XO (XO XH)))))))) (Npos (XI (XI
+         (XI (XI (XI (XI (XO XH)))))))) b
+    then Some U2
+    else None
+  | U3_F0 ->
+    if jbetween (Npos (XO (XO (XO (XO (XI (XO (XO XH)))))))) (Npos (XI (XI
+         (XI (XI (XI (XI (XO XH)))))))) b
+    then Some U2
+    else None
+  | U3_F4 ->
+    if jbetween (Npos (XO (XO (XO (XO (XO (XO (XO XH)))))))) (Npos (XI (XI
+         (XI (XI (XO (XO (XO XH)))))))) b
+    then Some U2
+    else None
+
+(** val utf8_go : u8_state -> bytes -> bool **)
+
+let rec utf8_go st = function
+| [] -> (match st with
+         | U0 -> true
+         | _ -> false)
+| b :: r ->
+  (match u8_step st b with
+   | Some st' -> utf8_go st' r
+   | None -> false)
+
+(** val utf8_valid : bytes -> bool **)
+
+let utf8_valid s =
+  utf8_go U0 s
